@@ -291,6 +291,9 @@ class DIP:
         # Parse nodes
         while len(queue.nodes):
             node = queue.nodes.pop()
+            # A line indented no deeper than an open case clause ends that clause
+            if node.keyword!='empty':
+                target.branching.close_by_indent(node.indent, node.keyword=='case')
             # Perform specific node parsing only outside of case or inside of valid case
             if not target.branching.false_case() or node.keyword=='case':
                 node.inject_value(target)
